@@ -23,9 +23,9 @@ from aioesphomeapi.util import fix_float_single_double_conversion as FIX
 from google.protobuf.descriptor import FieldDescriptor as FD
 
 from vf import pbstub, track
-from vf.harness.common import concretize, shard_int
+from vf.harness.common import concretize, shard_int, shard_ints
 from vf.smt import c14_schema as S
-from vf.symtypes import IeeeFloat, same
+from vf.symtypes import IeeeFloat, same, sym_ceil
 from vf.track import NoTracing
 
 PROPERTY = "C14"
@@ -38,11 +38,37 @@ def _enum_sig(me) -> str:
     return "C14/enum-mismatch/" + me.__name__
 
 
+_KNOWN_ENTRIES = None
+
+
+def _known_entry(me) -> dict:
+    """the open known_findings.json entry for this enum ({} if none / suppression switched off).
+    Its "points" are the exact mismatch points attributed to the finding (E2 excludes only those), its
+    "numbers" the wire numbers whose conversion is affected (E1 suppresses only those)."""
+    global _KNOWN_ENTRIES
+    if _KNOWN_ENTRIES is None:
+        import json
+        import os
+
+        ents = {}
+        p = os.path.join(os.path.dirname(os.path.dirname(os.path.dirname(os.path.abspath(__file__)))), "known_findings.json")
+        try:
+            with open(p) as f:
+                for e in json.load(f).get("findings", []):
+                    ents[e["signature"]] = e
+        except FileNotFoundError:
+            pass
+        _KNOWN_ENTRIES = ents
+    if _enum_sig(me) not in track.known_signatures():
+        return {}
+    return _KNOWN_ENTRIES.get(_enum_sig(me), {})
+
+
 def _wire_numbers(wd) -> tuple:
     return tuple(sorted({v.number for v in wd.values}))
 
 
-def enum_pair_ok(model_enum: str, wire_enum: str) -> bool:
+def enum_pair_ok(model_enum: str, wire_enum: str, suppress: bool = True) -> bool:
     """native confirmation (no solver, the real objects): numbers/names of the two enums agree."""
     me = getattr(M, model_enum)
     wd = PB.DESCRIPTOR.enum_types_by_name[wire_enum]
@@ -55,7 +81,8 @@ def enum_pair_ok(model_enum: str, wire_enum: str) -> bool:
         # and the converter really maps every wire number to the member of that number
         ok = all(me.convert(num) is not None and int(me.convert(num)) == num for _, num in wire)
     if not ok:
-        return track.fail(f"model enum {model_enum} {model} does not mirror wire enum {wire_enum} {wire}", _enum_sig(me))
+        why = f"model enum {model_enum} {model} does not mirror wire enum {wire_enum} {wire}"
+        return track.fail(why, _enum_sig(me)) if suppress else track.fail(why)
     return True
 
 
@@ -77,19 +104,12 @@ def text_descriptor_ok() -> bool:
 
 def smt_obligations(tier: str) -> list:
     out = []
-    known = track.known_signatures()
     out.append(_confirm(S.text_vs_descriptor_obligation(), "text_descriptor_ok()"))
     pairs, unpaired = S.enum_pairs()
     for me, wd, origin in pairs:
-        ob = S.enum_obligation(me, wd, origin)
-        call = f"enum_pair_ok({me.__name__!r}, {wd.name!r})"
-        if ob["status"] == "sat" and _enum_sig(me) in known:
-            # listed known finding: not reported as a new violation, and NOT counted as discharged either
-            ob["status"] = "known-finding"
-            ob["what"] += f" -- mismatch is the listed known finding {_enum_sig(me)}: {ob.get('witness')}"
-            out.append(ob)
-            continue
-        out.append(_confirm(ob, call))
+        pts = [tuple(p) for p in _known_entry(me).get("points", [])]
+        ob = S.enum_obligation(me, wd, origin, pts)
+        out.append(_confirm(ob, f"enum_pair_ok({me.__name__!r}, {wd.name!r}, False)"))
     if unpaired:
         out.append({"name": "enum/unpaired", "status": "unknown", "seconds": 0, "queries": 0,
                     "what": f"model enums without a wire counterpart found: {unpaired}"})
@@ -156,7 +176,9 @@ class _MathStub:
         self.answer = answer
         self.log_calls = []
         self.isfinite = math.isfinite
-        self.ceil = math.ceil
+
+    def ceil(self, x):
+        return sym_ceil(x)  # math.ceil natively; round-toward-+inf encoding for a symbolic float
 
     def log10(self, x):
         self.log_calls.append(x)
@@ -164,11 +186,13 @@ class _MathStub:
 
 
 DLO, DHI = -45, 39
+DSEL0 = shard_int("DSEL0", 0)  # this shard's slice of the decade selector
+DSEL1 = shard_int("DSEL1", DHI - DLO)
 
 
 def h14_fix_digits(v: IeeeFloat, lg: IeeeFloat, dsel: int) -> bool:
     """
-    pre: 0 <= dsel <= DHI - DLO
+    pre: 0 <= DSEL0 <= dsel <= DSEL1 <= DHI - DLO
     pre: v == v and v != 0.0 and v != float("inf") and v != float("-inf")
     post: _
     """
@@ -226,9 +250,12 @@ def _enum_result_ok(me, nums, n, r, what: str) -> bool:
     """r is what the model presents for wire number n: the member of that number, None when unknown."""
     if n in nums:
         if r is None or type(r) is not me or int(r) != n:
-            return track.fail(what + ": a declared wire number is not presented as the member with that number", _enum_sig(me))
+            why = what + ": a declared wire number is not presented as the member with that number"
+            if n in tuple(_known_entry(me).get("numbers", ())):
+                return track.fail(why, _enum_sig(me))
+            return track.fail(why)
     elif r is not None:
-        return track.fail(what + ": an unknown wire number is not presented as None", _enum_sig(me))
+        return track.fail(what + ": an unknown wire number is not presented as None")
     return True
 
 
@@ -374,7 +401,6 @@ def _supported(pb, md) -> bool:
 
 
 _SPEC: dict = {}
-DEBUG_ID = shard_int("DEBUG_ID", 0)
 
 
 def _spec(pb, md) -> list:
@@ -454,9 +480,9 @@ def _build(pb, md, al: _Alloc, ctl: _Ctl, depth=0):
             given[name] = (kind, v)
         elif kind == "map":
             items = []
-            for _ in range(ctl.rlen):
+            for j in range(ctl.rlen):
                 e = pbstub.make_stub(k[1])()
-                e.key = al.take("str")
+                e.key = "k%d" % j  # concrete distinct keys (a symbolic dict key is realised = enumerated)
                 e.value = al.take("str")
                 items.append(e)
             getattr(stub, name).extend(items)
@@ -484,9 +510,6 @@ def _model_ok(m, md, given, what: str) -> bool:
         got = getattr(m, name)
         w = what + "." + name
         if kind in ("bool", "int", "str", "bytes", "float"):
-            if DEBUG_ID and got is not g[1]:
-                with NoTracing():
-                    print("NOT-IDENTICAL", name, kind, type(got), type(g[1]))
             if not same(got, g[1]):
                 return track.fail(w + ": value not preserved")
         elif kind == "cfloat":
@@ -572,9 +595,10 @@ for _fd in P_PB.DESCRIPTOR.fields:
         _all_nums += [n for f2 in _fd.message_type.fields if f2.enum_type is not None for n in _wire_numbers(f2.enum_type)]
 # a varied enum number is  (min of ITS enum - 2) + offset,  offset in [0, V_HI]; offsets beyond max+2 are skipped
 V_LO, V_HI = 0, (max(_all_nums) - min(_all_nums) + 4) if _all_nums else 0
-MODE = shard_int("MODE", -1)
+MODES = tuple(shard_ints("MODES", "0,1,2,3"))
 WHICH = shard_int("WHICH", -1)
-HAS_ROUNDTRIP = shard_int("ROUNDTRIP", 1)
+# the statement demands the to_dict/from_dict round trip of entity-info, entity-state, device-info, user-service
+HAS_ROUNDTRIP = shard_int("ROUNDTRIP", 1) and (issubclass(P_MD, (M.EntityInfo, M.EntityState)) or P_MD in (M.DeviceInfo, M.UserService, M.UserServiceArg))
 
 
 def _short(strs, byts) -> bool:
@@ -591,7 +615,7 @@ def h14_from_pb(mode: int, which: int, value: int, ln: int, e0: int, e1: int, e2
                 ints: INTS, bools: BOOLS, strs: STRS, byts: BYTS, flts: FLTS) -> bool:
     """
     pre: 0 <= mode <= 3 and 0 <= which and 0 <= ln
-    pre: (MODE < 0 or mode == MODE) and (WHICH < 0 or which == WHICH)
+    pre: mode in MODES and (WHICH < 0 or which == WHICH)
     pre: V_LO <= value <= V_HI and V_LO <= e0 <= V_HI and V_LO <= e1 <= V_HI and V_LO <= e2 <= V_HI
     pre: _short(strs, byts)
     post: _
@@ -655,8 +679,11 @@ def _plain(ctl, ints, bools, strs, byts, flts) -> bool:
 
 def shards(tier: str) -> list:
     out = [{"fn": "h14_fix_special", "env": {}, "cond_timeout": 120, "desc": "fix_float: 0, -0, inf, -inf, NaN unchanged"}]
-    out.append({"fn": "h14_fix_digits", "env": {}, "cond_timeout": 300,
-                "desc": f"fix_float: digits == 7 - d for every decade d in [{DLO}, {DHI}] (log10/round contract stubs)"})
+    step = 15 if tier == "quick" else 9
+    for a in range(0, DHI - DLO + 1, step):
+        b = min(a + step - 1, DHI - DLO)
+        out.append({"fn": "h14_fix_digits", "env": {"DSEL0": a, "DSEL1": b}, "cond_timeout": 300,
+                    "desc": f"fix_float: round() gets 7 - d digits for every decade d in [{a + DLO}, {b + DLO}] (log10/round contract stubs)"})
     for i, (me, wd, _o) in enumerate(_ENUM_PAIRS):
         out.append({"fn": "h14_enum_convert", "env": {"EIDX": i}, "cond_timeout": 120,
                     "desc": f"{me.__name__}.convert(n), n in [min-2, max+2] of wire enum {wd.name}"})
@@ -667,12 +694,56 @@ def shards(tier: str) -> list:
                         "desc": f"{nm}.convert_list on symbolic lists of length <= {3 if tier == 'quick' else 4}"})
     for i, (pb, md, _o) in enumerate(_E1):
         env = {"PAIR": i, "RMAX": 2 if tier == "quick" else 3, "LMAX": 2 if tier == "quick" else 3}
-        out.append({"fn": "h14_from_pb", "env": env, "cond_timeout": 400 if tier == "quick" else 1200,
-                    "desc": f"{md.__name__}.from_pb({pb.__name__} double) + to_dict/from_dict round trip"})
+        desc = f"{md.__name__}.from_pb({pb.__name__} double) + to_dict/from_dict round trip"
+        c = _Alloc()
+        _build(pb, md, c, _Ctl(rlen=1))
+        to = 400 if tier == "quick" else 1500
+        if c.slots["enum_list"]:
+            out.append({"fn": "h14_from_pb", "env": dict(env, MODES="0,1,3"), "cond_timeout": to, "desc": desc + " [enum fields, rounded floats, repeated lengths]"})
+            for w in range(c.slots["enum_list"]):
+                out.append({"fn": "h14_from_pb", "env": dict(env, MODES="2", WHICH=w), "cond_timeout": to, "desc": desc + f" [repeated enum field #{w}: symbolic lists]"})
+        else:
+            out.append({"fn": "h14_from_pb", "env": env, "cond_timeout": to, "desc": desc})
     return out
 
 
-BOUNDS = {}
-OUTSIDE = []
-ASSUMPTIONS = []
-EXPLANATION = "C14"
+_UNSUPPORTED = sorted({md.__name__ for pb, md, _o in S.message_pairs() if not _supported(pb, md)})
+
+BOUNDS = {
+    "quick": {
+        "E2 schema": "all paired enums (converter fields <-> descriptor enum_type, APIClient command/enum parameters <-> request fields, same-name "
+                     "rest) and all (message, model) pairs of SUBSCRIBE_STATES_RESPONSE_TYPES, LIST_ENTITIES_SERVICES_RESPONSE_TYPES and the "
+                     "from_pb call sites (DeviceInfo, UserService, UserServiceArg, HomeassistantServiceCall, Bluetooth*, VoiceAssistant*, "
+                     "MediaPlayerSupportedFormat); api.proto text vs descriptors for all enums; exact (finite relations, no bound)",
+        "from_pb": "per pair: all bool/int/str(len<=2)/bytes(len<=2)/plain-float(any double) fields symbolic TOGETHER; one aspect varied at a time: "
+                   "(0) one enum field takes a symbolic number in [min-2, max+2] of its wire enum, (1) one rounded-float field takes each value of "
+                   "a 14-entry float32 table (+-0, +-inf, NaN, 0.1f, 21.3f, -1.1f, -123456.79f, min subnormal, FLT_MIN, FLT_MAX, 2^24, 9.999999f), "
+                   "(2) one repeated enum field takes a symbolic list of length <= 2 over [min-2, max+2], (3) every repeated/map/nested-list field "
+                   "has 0..2 elements; nested messages one level (UserService.args, MediaPlayerInfo.supported_formats, VoiceAssistantCommand.audio_settings)",
+        "enum converters": "every paired model enum: convert(n), n in [min-2, max+2]; convert_list on symbolic lists of length <= 3 (FanDirection, ClimateSwingMode)",
+        "fix_float": "v any double that is 0/-0/inf/-inf/NaN: returned unchanged; v any other double with 1e-46 < |v| <= 1e39 (85 decades, covers every "
+                     "finite non-zero float32): digits argument of round == 7 - d, round gets the signed v, its result is returned",
+    },
+    "thorough": {"as quick, plus": "repeated enum lists of length <= 3, repeated/map/nested fields of 0..3 elements, convert_list length <= 4 on four enums"},
+}
+OUTSIDE = [
+    "that libm log10 and CPython round(x, n) honour the contract stubs on every float32 bit pattern (C code, transcendental): "
+    "log10 is assumed to return a value in (d-1, d] for 10^(d-1) < |v| <= 10^d, round(x, n) is opaque; the rounded-float fields are "
+    "therefore exercised end-to-end only on the 14-entry table, against the reference float(format(v, '.7g'))",
+    "str / bytes values longer than 2, repeated fields longer than the stated bound, several enum / rounded-float fields varied simultaneously",
+    "map keys of HomeassistantServiceCall are concrete distinct strings (values symbolic)",
+    "from_pb of: " + ", ".join(_UNSUPPORTED) + " (uuid / advertisement converters run C code; only their field-name sets are checked)",
+    "to_dict/from_dict round trip of model classes other than entity-info, entity-state, DeviceInfo, UserService(Arg) (not demanded by the statement)",
+    "the protobuf parser itself (messages are pbstub doubles carrying values of the descriptor's types)",
+]
+ASSUMPTIONS = [
+    "names match = wire value name == P + model member name for ONE '_'-terminated prefix P common to all values of that wire enum (or P empty)",
+    "pbstub doubles (named fields, descriptor defaults, repeated containers are list subclasses)",
+    "vf/symtypes.py: IeeeFloat = one z3 Float64 per float; sym_ceil = round-toward-+inf encoding of math.ceil for a finite symbolic float",
+    "h14_fix_digits replaces util.math.log10 by a contract stub (returns ANY value lg with d-1 < lg <= d) and builtin round (as seen from util.py) by a recorder",
+    "reference for the rounded-float fields: float(format(v, '.7g')) (correctly rounded 7 significant decimal digits)",
+    "known findings C14/enum-mismatch/LockState and C14/enum-mismatch/UpdateCommand: exactly the listed points/numbers are excluded, everything else about those enums is still checked",
+]
+EXPLANATION = ("C14: E2 = z3 finds no (number, name) / field name present on one side only and no alias; E1 = Model.from_pb on doubles never raises, "
+               "every field equals its input (unknown enum number -> None / dropped in order, rounded floats == 7-significant-digit reference), "
+               "from_dict(to_dict(m)) == m field-wise; fix_float asks round() for 7 - ceil(log10|v|) digits in every decade.")
